@@ -165,3 +165,75 @@ def sign_bundle_keys(keys: list[Any], signers: list[tuple[Any, TestKey]], incept
         raw = make_raw_rrsig(sig, set(keys))
         out.add(sig.replace(signature_data=base64.b64encode(tk.sign_dnssec(key.algorithm.value, raw))))
     return out
+
+
+# --------------------------------------------------------------------------------------
+# keys with particular key-tag properties (fixtures/special.json, tools/gen_special_fixtures.py)
+# --------------------------------------------------------------------------------------
+
+
+@lru_cache(maxsize=1)
+def special() -> dict[str, Any]:
+    """{'carry': [TestKey…], 'revcarry': [TestKey…], 'twins': [[TestKey, TestKey]…]} — 1024-bit RSA, e = 65537.
+    carry: (ac & 0xFFFF) + (ac >> 16) >= 0x10000 for the flags-257 / algorithm-8 DNSKEY (a second fold would differ);
+    revcarry: low 16 bits of the accumulator >= 0xFF80 (revoked tag = tag + 129); twins: same key tag as KSK."""
+    raw = json.loads((VERIF / "fixtures" / "special.json").read_text())
+    return {
+        "carry": [TestKey(d) for d in raw["carry"]],
+        "revcarry": [TestKey(d) for d in raw["revcarry"]],
+        "twins": [[TestKey(a), TestKey(b)] for a, b in raw["twins"]],
+    }
+
+
+def tag_accumulator(rdata: bytes) -> int:
+    s = 0
+    for i, b in enumerate(rdata):
+        s += b if i & 1 else b << 8
+    return s
+
+
+def rfc4034_key_tag(rdata: bytes) -> int:
+    """RFC 4034 Appendix B, transcribed: one fold, carry of the fold discarded."""
+    ac = tag_accumulator(rdata)
+    ac += (ac >> 16) & 0xFFFF
+    return ac & 0xFFFF
+
+
+def craft_public_key_with(pred: Any, flags: int, alg: int, rnd: Any, n_len: int = 128, tries: int = 200000) -> bytes:
+    """An RFC 3110 public-key field (e = 65537, random `n_len`-octet 'modulus' — NOT a usable RSA key, public material only)
+    whose DNSKEY RDATA (flags, 3, alg) satisfies `pred(rdata)`.  The last 16-bit word of the modulus is solved for."""
+    hdr = flags.to_bytes(2, "big") + bytes([3, alg])
+    for _ in range(tries):
+        n = bytearray(rnd.randbytes(n_len))
+        n[0] |= 0x80
+        n[-1] |= 1
+        pk = bytes([3, 1, 0, 1]) + bytes(n)
+        rd = hdr + pk
+        if pred(rd):
+            return pk
+        # steer: the last two octets sit at an even offset when len(rd) is even
+        for w in (rnd.randrange(65536) for _ in range(8)):
+            n[-2], n[-1] = w >> 8, (w & 0xFF) | 1
+            pk = bytes([3, 1, 0, 1]) + bytes(n)
+            if pred(hdr + pk):
+                return pk
+    raise RuntimeError("could not craft key")
+
+
+def craft_public_key_with_tag(target: int, flags: int, alg: int, rnd: Any, n_len: int = 128) -> bytes:
+    """Solve the last 16-bit word so that the key tag is exactly `target`."""
+    hdr = flags.to_bytes(2, "big") + bytes([3, alg])
+    while True:
+        n = bytearray(rnd.randbytes(n_len))
+        n[0] |= 0x80
+        n[-2] = n[-1] = 0
+        base = hdr + bytes([3, 1, 0, 1]) + bytes(n)
+        assert len(base) % 2 == 0
+        s0 = tag_accumulator(base)
+        for w in range(1, 65536, 2):
+            s = s0 + w
+            if ((s & 0xFFFF) + (s >> 16)) & 0xFFFF == target:
+                n[-2], n[-1] = w >> 8, w & 0xFF
+                pk = bytes([3, 1, 0, 1]) + bytes(n)
+                assert rfc4034_key_tag(hdr + pk) == target
+                return pk
